@@ -90,6 +90,9 @@ class If(Expr):
         if self.elseBranch is None:
             # if there is only a thenBranch, it must evaluate to TealType.none
             require_type(self.thenBranch, TealType.none)
+        else:
+            # both branches must leave the same kind of value (an ElseIf chain is a nested If)
+            require_type(self.elseBranch, self.thenBranch.type_of())
 
         return self.thenBranch.type_of()
 
